@@ -142,6 +142,10 @@ def run(ctx):
             R.ob(ro == len(dd) or (ro == "forwarded" and len(dd) == 1), "CODEC", d["dec"].where(), "CODEC|%s|returned-offset" % short,
                  "%s: the returned offset depends on %s of %d decodes (not self-delimiting)" % (short, ro, len(dd)),
                  sample={"rule": "CODEC offset", "type": short, "decodes": len(dd)})
+            if len(dd) >= COMPOSITE_MIN_FIELDS and all(x["ty"] not in ("u8", "u32") for x in dd):
+                from codec import returned_offset_is_computed
+                R.ob(not returned_offset_is_computed(d["dec"]), "CODEC", d["dec"].where(), "CODEC|%s|returned-offset-exact" % short,
+                     "%s: the returned offset is computed from, not equal to, the offset the last component decode returned" % short)
         # --- field agreement (composite types)
         fmap, how = decode_field_map(F, d["dec"], ty)
         if fmap is not None and len(e) >= 1 and any(x["field"] for x in e) and _straight(d["dec"]) or (fmap and short == "RawBlock"):
